@@ -100,6 +100,18 @@ MUTANTS = [
      "                        for collection in collections[1:]\n                        for other in collection.endpoints\n                    ):", ["C07", "C09"]),
     ("d05", P + "parser/openapi.py", "                    module_name = utils.PythonIdentifier(endpoint.name, config.field_prefix)", "                    module_name = endpoint.name", ["C07", "C09"]),
     ("d06", PP + "enum_property.py", "        if schemas.module_name_taken(class_info):", "        if schemas.module_name_taken(class_info) and False:", ["C09"]),
+    ("e01", P + "cli.py", "    if url and not path:\n        source = url", "    if url:\n        source = url", ["C06"]),
+    ("e02", P + "cli.py", "        typer.secho(f\"Unknown encoding : {file_encoding}\", fg=typer.colors.RED)\n        raise typer.Exit(code=1) from err",
+     "        typer.secho(f\"Unknown encoding : {file_encoding}\", fg=typer.colors.RED)", ["C06"]),
+    ("e03", P + "__init__.py", "    if isinstance(project, GeneratorError):\n        return [project]\n    return project.build()",
+     "    if isinstance(project, GeneratorError):\n        return []\n    return project.build()", ["C06"]),
+    ("e04", P + "__init__.py", "    if isinstance(openapi, GeneratorError):\n        return openapi\n    return Project(",
+     "    return Project(", ["C06"]),
+    ("e05", P + "cli.py", "    handle_errors(errors, fail_on_warning)", "    handle_errors(errors)", ["C06"]),
+    ("e06", P + "__init__.py", "        try:\n            yaml_bytes = source.read_bytes()\n        except OSError as err:", "        try:\n            yaml_bytes = source.read_bytes()\n        except FileNotFoundError as err:", ["C06"]),
+    ("e07", P + "parser/bodies.py", "            prop = attr.evolve(prop, is_multipart_body=True)", "            prop = attr.evolve(prop, is_multipart_body=body_type == BodyType.FILES)", ["C12"]),
+    ("e08", PP + "list_property.py", "        items = list(data.prefixItems or [])", "        items = data.prefixItems or []", ["C20", "C12"]),
+    ("e09", PP + "model_property.py", "            required_set.update(sub_prop.required or [])", "            pass", ["C15", "C10"]),
     ("d07", PP + "schemas.py", "        for name, existing in self.classes_by_name.items():\n            other =", "        for name, existing in list(self.classes_by_name.items())[1:]:\n            other =", ["C09"]),
 ]
 
